@@ -161,7 +161,16 @@ async fn handle_socks5_connection(
 
     // Step 4: Send success reply
     tracing::debug!("[SOCKS5] Sending success reply to client");
-    send_connection_reply(&mut client_conn, REPLY_SUCCEEDED, dest_addr.clone()).await?;
+    if let Err(e) =
+        send_connection_reply(&mut client_conn, REPLY_SUCCEEDED, dest_addr.clone()).await
+    {
+        // The application is gone already: end the stream and give the session back
+        let _ = session
+            .write_control_frame(Frame::control(Command::Fin, stream_id))
+            .await;
+        client.release_session(session).await;
+        return Err(e);
+    }
     tracing::debug!("[SOCKS5] Success reply sent");
 
     // Step 5: Bidirectional data forwarding
@@ -353,7 +362,10 @@ async fn handle_socks5_connection(
         "[SOCKS5] Tasks spawned, waiting for completion (stream {})",
         stream_id
     );
+    let session_for_release = Arc::clone(&session);
     let (result1, result2) = tokio::join!(task1, task2);
+    // Both directions have ended: the session can serve the next request
+    client.release_session(session_for_release).await;
     tracing::debug!("[SOCKS5] Both tasks completed for stream {}", stream_id);
     if let Err(e) = result1 {
         tracing::error!("[SOCKS5] Task1 error: {:?}", e);
